@@ -18,20 +18,29 @@ package main
 
 import (
 	"bytes"
+	"encoding/hex"
 	"fmt"
 	"math/big"
 	mrand "math/rand"
+	"os"
+	"reflect"
+	"sort"
 	"strings"
 
 	"elaverif/harness/hx"
+	"elaverif/harness/regnet"
 
 	"github.com/elastos/Elastos.ELA/common"
+	"github.com/elastos/Elastos.ELA/common/config"
 	"github.com/elastos/Elastos.ELA/core/contract"
+	"github.com/elastos/Elastos.ELA/core/contract/program"
 	"github.com/elastos/Elastos.ELA/core/transaction"
 	ctypes "github.com/elastos/Elastos.ELA/core/types/common"
 	"github.com/elastos/Elastos.ELA/core/types/functions"
 	"github.com/elastos/Elastos.ELA/core/types/interfaces"
+	"github.com/elastos/Elastos.ELA/core/types/payload"
 	"github.com/elastos/Elastos.ELA/crypto"
+	"github.com/elastos/Elastos.ELA/dpos/state"
 )
 
 func exec(t []string) string {
@@ -42,6 +51,8 @@ func exec(t []string) string {
 		return execTxsig(t)
 	case "tie":
 		return execTie(t)
+	case "pipe":
+		return execPipe(t)
 	}
 	panic("harness: unknown op " + t[0])
 }
@@ -139,6 +150,12 @@ func reviewedExempt(variant string, ttype, pver byte) bool {
 func oracle(t []string, out string) *hx.Violation {
 	if out == "panic" {
 		return &hx.Violation{Kind: "panic", Detail: hx.LastPanic()}
+	}
+	if t[0] == "pipe" {
+		if out == "accepted-unsigned" {
+			return &hx.Violation{Kind: "accept-unsigned-tx", Detail: "the node's sanity + context checks accept a transaction that spends outputs without carrying any program"}
+		}
+		return nil
 	}
 	if t[0] == "tie" { // the verdict must not depend on the (random) order of addresses with equal code hashes
 		if strings.Contains(out, "|") && (strings.HasPrefix(out, "ok|") || strings.Contains(out, "|ok")) {
@@ -386,7 +403,7 @@ func genStandard(g *hx.Gen, w *world) {
 		case 2:
 			param[1+r.Intn(64)] ^= 1
 		case 3:
-			code[1] = 0x05 // undecodable point
+			code[1] = byte(r.Pick(0x05, 0x04, 0x06, 0x07, 0x00)) // undecodable point / another point format
 		}
 		pfx := byte(contract.PrefixStandard)
 		if r.Chance(25) {
@@ -533,6 +550,168 @@ func genMulti(g *hx.Gen, w *world) {
 			ps = ps[:len(ps)-1]
 		}
 		emitPair(g, data, hs, ps, true)
+	}
+}
+
+// ---------------------------------------------------------------- pipe: the whole validation pipeline on a real node
+//
+//	pipe <height> <transaction bytes>
+//
+// decode, BlockChain.CheckTransactionSanity and CheckTransactionContext at <height> on an in-process regnet
+// node whose DPoS state holds one inactive, funded producer (node key = account 1).  Answer `fine`, or
+// `accepted-unsigned` when the node accepts a transaction that spends outputs although it carries no
+// program at all and its (type, version) is not in the reviewed exemption table.
+
+var (
+	pipeNode *regnet.Node
+	pipeDir  string
+)
+
+func getPipeNode() *regnet.Node {
+	if pipeNode == nil {
+		dir, err := os.MkdirTemp("", "c05-regnet")
+		if err != nil {
+			panic("harness: tempdir")
+		}
+		n, err := regnet.NewNode(dir, regnet.Options{CoinbaseMaturity: 1, NoPoolEvents: true})
+		if err != nil {
+			panic("harness: regnet node: " + err.Error())
+		}
+		pipeNode, pipeDir = n, dir
+		// an inactive producer whose node key is account 1's key, deposit large enough for every era
+		owner, node := n.Accounts[2].PublicKey, n.Accounts[1].PublicKey
+		ob, _ := owner.EncodePoint(true)
+		nb, _ := node.EncodePoint(true)
+		st := n.Chain.GetState()
+		st.InactiveProducers[hex.EncodeToString(ob)] = state.VerifC05InactiveProducer(ob, nb, 1000000*100000000, state.DPoSV1V2)
+		st.NodeOwnerKeys[hex.EncodeToString(nb)] = hex.EncodeToString(ob)
+	}
+	return pipeNode
+}
+
+func execPipe(t []string) string {
+	n := getPipeNode()
+	height := uint32(atoi(t[1]))
+	var tx interfaces.Transaction
+	func() {
+		defer func() { recover() }()
+		r := bytes.NewReader(hx.UnHex(t[2]))
+		x, err := functions.GetTransactionByBytes(r)
+		if err != nil || x.Deserialize(r) != nil {
+			return
+		}
+		tx = x
+	}()
+	if tx == nil {
+		return "fine"
+	}
+	_ = tx.Hash()
+	if err := n.Chain.CheckTransactionSanity(height, tx); err != nil {
+		return "fine"
+	}
+	if _, err := n.Chain.CheckTransactionContext(height, tx, 0, 0); err != nil {
+		return "fine"
+	}
+	if len(tx.Inputs()) > 0 && len(tx.Programs()) == 0 && !tx.IsCoinBaseTx() && !reviewedExempt("tx", byte(tx.TxType()), tx.PayloadVersion()) {
+		return "accepted-unsigned"
+	}
+	return "fine"
+}
+
+// every *Height of the configuration (reflection over the parameter structs)
+func configHeights(p *config.Configuration) []uint32 {
+	seen := map[uint32]bool{}
+	var walk func(v reflect.Value)
+	walk = func(v reflect.Value) {
+		switch v.Kind() {
+		case reflect.Ptr:
+			if !v.IsNil() {
+				walk(v.Elem())
+			}
+		case reflect.Struct:
+			for i := 0; i < v.NumField(); i++ {
+				f := v.Type().Field(i)
+				if f.PkgPath != "" {
+					continue
+				}
+				if v.Field(i).Kind() == reflect.Uint32 && strings.Contains(f.Name, "Height") {
+					seen[uint32(v.Field(i).Uint())] = true
+				} else if v.Field(i).Kind() == reflect.Struct || v.Field(i).Kind() == reflect.Ptr {
+					if f.Type.String() != "*big.Int" && f.Type.String() != "*types.Block" {
+						walk(v.Field(i))
+					}
+				}
+			}
+		}
+	}
+	walk(reflect.ValueOf(p))
+	var hs []uint32
+	for h := range seen {
+		if h > 2 && h < 1<<31 {
+			hs = append(hs, h)
+		}
+	}
+	sort.Slice(hs, func(i, j int) bool { return hs[i] < hs[j] })
+	return hs
+}
+
+// transactions that spend a foreign output WITHOUT any program, of every type, at every configured height
+// boundary (h-1, h, h+1); ActivateProducer carries a valid payload signature of the prepared producer's node key
+func genPipe(g *hx.Gen) {
+	r := g.R
+	n := getPipeNode()
+	utxos, err := n.UTXOs(0)
+	if err != nil || len(utxos) == 0 {
+		panic("harness: no genesis coins")
+	}
+	nb, _ := n.Accounts[1].PublicKey.EncodePoint(true)
+	var heights []uint32
+	for _, h := range configHeights(n.Params) {
+		heights = append(heights, h-1, h, h+1)
+	}
+	for _, tt := range allTxTypes() {
+		for _, h := range heights {
+			if !g.Quick() || tt == byte(ctypes.ActivateProducer) || r.Chance(12) {
+				var pl interfaces.Payload
+				if tt == byte(ctypes.ActivateProducer) {
+					ap := &payload.ActivateProducer{NodePublicKey: nb}
+					buf := new(bytes.Buffer)
+					ap.SerializeUnsigned(buf, 0)
+					sig, err := crypto.Sign(n.Accounts[1].PrivateKey, buf.Bytes())
+					if err != nil {
+						panic("harness: sign")
+					}
+					ap.Signature = sig
+					pl = ap
+				} else {
+					p0, err := interfaces.GetPayload(ctypes.TxType(tt), 0)
+					if err != nil || p0 == nil {
+						continue
+					}
+					pl = p0
+				}
+				u := utxos[r.Intn(len(utxos))]
+				for _, withInput := range []bool{true, false} {
+					var ins []*ctypes.Input
+					if withInput {
+						ins = append(ins, &ctypes.Input{Previous: ctypes.OutPoint{TxID: u.TxID, Index: uint16(u.Index)}})
+					}
+					var raw []byte
+					func() {
+						defer func() { recover() }()
+						tx := functions.CreateTransaction(ctypes.TxVersion09, ctypes.TxType(tt), 0, pl, []*ctypes.Attribute{}, ins,
+							[]*ctypes.Output{}, 0, []*program.Program{})
+						buf := new(bytes.Buffer)
+						if tx.Serialize(buf) == nil {
+							raw = buf.Bytes()
+						}
+					}()
+					if raw != nil {
+						g.Emit("pipe %d %s", h, hx.Hex(raw))
+					}
+				}
+			}
+		}
 	}
 }
 
@@ -749,9 +928,18 @@ func gen(g *hx.Gen) {
 	genMulti(g, w)
 	genTxsig(g, w)
 	genTies(g, w)
+	genPipe(g)
+}
+
+func cleanupPipe() {
+	if pipeNode != nil {
+		pipeNode.Close()
+		os.RemoveAll(pipeDir)
+	}
 }
 
 func main() {
+	defer cleanupPipe()
 	functions.GetTransactionByTxType = transaction.GetTransaction
 	functions.GetTransactionByBytes = transaction.GetTransactionByBytes
 	functions.CreateTransaction = transaction.CreateTransaction
